@@ -21,7 +21,21 @@ DescAcc(acc) == IF acc.kind = "param"
                 ELSE [kind |-> "cmd", arg |-> acc.arg]
 Described(sh) == [m \in DOMAIN sh |-> [w \in WireNames(sh[m]) |-> DescAcc(AccByWire(sh[m], w))]]
 
-Importable(dt, v) == dt.t = "other" \/ Validate(dt, v, Null).ok
+(* "importable with the described datainfo": a client that rebuilt the datatype from the  *)
+(* description can take the transported value in.  This is about kind and shape, not about *)
+(* the numeric range (a start value outside min/max is the configuration's business).     *)
+RECURSIVE Importable(_, _)
+Importable(dt, v) ==
+  CASE dt.t = "double" -> IsNumber(v)
+    [] dt.t = "int"    -> v.k = "num"
+    [] dt.t = "enum"   -> v.k = "num" /\ \E i \in 1 .. Len(dt.mem) : dt.mem[i].val = v.n
+    [] dt.t = "string" -> v.k = "str"
+    [] dt.t = "bool"   -> v.k = "bool"
+    [] dt.t = "array"  -> v.k = "list" /\ \A i \in 1 .. Len(v.xs) : Importable(dt.el, v.xs[i])
+    [] dt.t = "tuple"  -> v.k = "list" /\ Len(v.xs) = Len(dt.els) /\ \A i \in 1 .. Len(v.xs) : Importable(dt.els[i], v.xs[i])
+    [] dt.t = "struct" -> v.k = "obj" /\ Keys(v) \subseteq MemberNames(dt)
+                          /\ \A key \in Keys(v) : Importable(dt.mem[MemberDt(dt, key)].dt, ValOf(v, key))
+    [] OTHER -> TRUE
 
 (* is the request aimed at something the description lists (with the fitting kind)? *)
 Known(desc, req) ==
